@@ -121,7 +121,7 @@ class _SeenTable:
         return '<urn:uuid:previous>' if self.seen else None
 
 
-def _file_is_record_sequence(body, compress, digests, appending, rollover, extra_field, nsessions, seen, cut, log=False):
+def _file_is_record_sequence(body, compress, digests, appending, rollover, extra_field, nsessions, seen, cut, log=False, longurl=False):
     """Whole files under symbolic recorder configurations."""
     body = fixlen(body, 2)
     fs = fakefs.FS()
@@ -140,7 +140,8 @@ def _file_is_record_sequence(body, compress, digests, appending, rollover, extra
     rec = warcenv.new_recorder(fs, **params)
     head = b'HTTP/1.1 200 OK\r\nContent-Type: text/plain\r\nContent-Length: ' + str(len(body)).encode() + b'\r\n\r\n'
     for i in range(nsessions):
-        warcenv.http_exchange(rec, 'http://h.example/%d' % i, head + body, [cut] if cut else [])
+        # longurl: a field value (WARC-Target-URI) of more than 1 KiB still occupies one line
+        warcenv.http_exchange(rec, 'http://h.example/%d' % i + ('?q=' + 'a' * 1100 if longurl else ''), head + body, [cut] if cut else [])
     log_text = b''
     if log:
         # what the root-logger handler would write while crawling (logging itself is disabled in harnesses)
@@ -261,19 +262,20 @@ HARNESSES = [
       doc='for every header formatting of the family the payload digest of the response record was computed over exactly the bytes that '
           'follow the HTTP header block (status line .. blank line) inside the block'),
     H('file_is_record_sequence', '_file_is_record_sequence',
-      'body: bytes, compress: bool, digests: bool, appending: bool, rollover: bool, extra_field: bool, nsessions: int, seen: bool, cut: int, log: bool',
+      'body: bytes, compress: bool, digests: bool, appending: bool, rollover: bool, extra_field: bool, nsessions: int, seen: bool, cut: int, log: bool, longurl: bool',
       pre=['len(body) <= 1 and 1 <= nsessions <= 2 and 0 <= cut <= 1'],
       parts={'quick': [{'tag': t, 'fix': fx} for t, fx in (
-          ('plain', _fx(compress=False, digests=True, appending=False, rollover=False, extra_field=False, nsessions=1, seen=False, log=False)),
-          ('gz_roll', _fx(compress=True, digests=True, appending=False, rollover=True, extra_field=True, nsessions=2, seen=False, log=False)),
-          ('append', _fx(compress=False, digests=False, appending=True, rollover=False, extra_field=False, nsessions=1, seen=False, log=False)),
-          ('append_gz_roll', _fx(compress=True, digests=True, appending=True, rollover=True, extra_field=False, nsessions=1, seen=False, log=False)),
-          ('revisit', _fx(compress=False, digests=True, appending=False, rollover=False, extra_field=False, nsessions=1, seen=True, log=False)),
-          ('log_nodigest', _fx(compress=False, digests=False, appending=False, rollover=False, extra_field=False, nsessions=1, seen=False, log=True)),
-          ('log_gz_roll', _fx(compress=True, digests=True, appending=False, rollover=True, extra_field=False, nsessions=1, seen=False, log=True)))],
-             'thorough': [{'tag': 'z%d_d%d_a%d_r%d_s%d' % (z, d, a, r, s), 'fix': _fx(compress=bool(z), digests=bool(d), appending=bool(a), rollover=bool(r), seen=bool(s), log=bool(s == 0 and a == 0))}
+          ('plain', _fx(compress=False, digests=True, appending=False, rollover=False, extra_field=False, nsessions=1, seen=False, log=False, longurl=False)),
+          ('longurl', _fx(compress=True, digests=True, appending=False, rollover=False, extra_field=False, nsessions=1, seen=False, log=False, longurl=True)),
+          ('gz_roll', _fx(longurl=False, compress=True, digests=True, appending=False, rollover=True, extra_field=True, nsessions=2, seen=False, log=False)),
+          ('append', _fx(longurl=False, compress=False, digests=False, appending=True, rollover=False, extra_field=False, nsessions=1, seen=False, log=False)),
+          ('append_gz_roll', _fx(longurl=False, compress=True, digests=True, appending=True, rollover=True, extra_field=False, nsessions=1, seen=False, log=False)),
+          ('revisit', _fx(longurl=False, compress=False, digests=True, appending=False, rollover=False, extra_field=False, nsessions=1, seen=True, log=False)),
+          ('log_nodigest', _fx(longurl=False, compress=False, digests=False, appending=False, rollover=False, extra_field=False, nsessions=1, seen=False, log=True)),
+          ('log_gz_roll', _fx(longurl=False, compress=True, digests=True, appending=False, rollover=True, extra_field=False, nsessions=1, seen=False, log=True)))],
+             'thorough': [{'tag': 'z%d_d%d_a%d_r%d_s%d' % (z, d, a, r, s), 'fix': _fx(compress=bool(z), digests=bool(d), appending=bool(a), rollover=bool(r), seen=bool(s), log=bool(s == 0 and a == 0), longurl=bool(z and not d))}
                           for z in (0, 1) for d in (0, 1) for a in (0, 1) for r in (0, 1) for s in (0, 1)]},
-      timeout={'quick': 280, 'thorough': 1800}, samples=[(b'a', False, True, False, False, False, 1, False, 0, False), (b'', True, True, True, True, True, 2, False, 0, False), (b'a', False, False, False, False, False, 1, False, 0, True)],
+      timeout={'quick': 280, 'thorough': 1800}, samples=[(b'a', False, True, False, False, False, 1, False, 0, False, False), (b'', True, True, True, True, True, 2, False, 0, False, False), (b'a', False, False, False, False, False, 1, False, 0, True, False), (b'a', False, True, False, False, False, 1, False, 0, False, True)],
       need=['single-file', 'rollover', 'revisit', 'log-record'],
       funcs=['wpull/warc/recorder.py:WARCRecorder.__init__', 'wpull/warc/recorder.py:WARCRecorder._start_new_warc_file',
              'wpull/warc/recorder.py:WARCRecorder._populate_warcinfo', 'wpull/warc/recorder.py:WARCRecorder.write_record',
